@@ -11,7 +11,10 @@ def linter(dialect, templater, style=None):
         from harness import corpus
         configs = {"core": {}}
         if templater == "jinja":
-            configs["templater"] = {"jinja": {"context": corpus.JINJA_CONTEXTS[style or 0]}}
+            # styles 0/1: the two contexts; 2/3: the same with template block indents switched off
+            configs["templater"] = {"jinja": {"context": corpus.JINJA_CONTEXTS[(style or 0) % 2]}}
+            if (style or 0) >= 2:
+                configs["indentation"] = {"template_blocks_indent": False}
         elif templater == "python":
             configs["templater"] = {"python": {"context": corpus.PY_CONTEXT}}
         elif templater == "placeholder":
